@@ -46,14 +46,6 @@ def search_streams(tier, seed, diffs):
 
 
 MANIFEST = dict(
-    level_text=("Theorems C05_ser_sorted_sound (all well-typed expressions built by the public constructors, all operators incl. division/remainder, "
-                "1-bit and wider operands in every position, arrays with Bool index/data, both coercion directions, all assignments: the written term is "
-                "well-sorted for a strict SMT-LIB sort checker and evaluates to the expression's value), C05_ser_type_sound, C05_escape_sound, "
-                "C05_ser_cmd_wf (declare/define/assert/check-sat-assuming/get-value accepted by the reference front end), C05_read_flatten; "
-                "refutations C05_escape_reserved_refuted and C05_cmd_head_refuted (about the current code, model variant Cur) with their outside-known "
-                "companions; C05_escape_sound (unconditional) and C05_cmd_head about the repaired variant Fix (= /repo with patches/0014, 0015). Tie to /repo: the real "
-                "serialize_cmd output is lexed, sort-checked and evaluated by the extracted reference on every generated case and compared with the model."),
-    level_note=("Trusted: Coq kernel; Spec/Smt.v as the statement of SMT-LIB (cross-checked against z3 and cvc5 in the thorough tier); hand-written model tied "
-                "by differential execution (generator-bounded). Two defects of patronus recorded as known findings (reserved words unquoted; SetInfo written "
-                "as set-option); both have a patch, ocaml/driver/c05.ml code_variant says which variant of the model the checked code is."),
+    level_text="Theorems C05_ser_sorted_sound (all well-typed expressions built by the public constructors, all operators incl. division/remainder, 1-bit and wider operands in every position, arrays with Bool index/data, both coercion directions, all assignments: the written term is well-sorted for a strict SMT-LIB sort checker and evaluates to the expression's value), C05_ser_type_sound, C05_escape_sound (unconditional for the writer in /repo: every symbol name incl. reserved words, keywords, multi-byte and delimiter characters is written as a token that denotes it), C05_ser_cmd_wf (declare/define/assert/check-sat-assuming/get-value/set-info accepted by the reference front end), C05_cmd_head, C05_read_flatten; C05_escape_reserved_refuted and C05_cmd_head_refuted are kept as theorems about the writer before the repairs (variant Cur). Tie to /repo: the real serialize_cmd output is lexed, sort-checked and evaluated by the extracted reference on every generated case, compared with the model, and fed to z3 and cvc5.",
+    level_note='Trusted: Coq kernel; Spec/Smt.v as the statement of SMT-LIB (cross-checked against z3 and cvc5); hand-written model tied by differential execution (generator-bounded). Two defects found by this check (reserved words unquoted; SetInfo written as set-option) are repaired in /repo (2ec74bc, 224b947); ocaml/driver/c05.ml code_variant = Fix2 says which model variant mirrors /repo. No open finding.',
 )
